@@ -40,7 +40,11 @@ _analog_values: Dict[_PinKey, int] = {}
 
 def _normalise_pin(pin: _PinKey) -> _PinKey:
     if isinstance(pin, str) and pin.isdigit():
-        return int(pin)
+        try:
+            return int(pin)
+        except ValueError:
+            # characters such as a superscript two count as digits but have no value
+            return pin
     return pin
 
 
@@ -62,8 +66,12 @@ def analog_write(pin: _PinKey, value: Union[int, float]) -> None:
     """Store the PWM ``value`` (0-255) for ``pin`` in the host simulation."""
 
     key = _normalise_pin(pin)
-    scaled = int(round(float(value)))
-    _analog_values[key] = max(0, min(255, scaled))
+    level = float(value)
+    if level != level:
+        raise ValueError("analog value must be a number, not NaN")
+    # clamp first: an infinite value has no integer to round to
+    level = max(0.0, min(255.0, level))
+    _analog_values[key] = int(round(level))
 
 
 def digital_read(pin: _PinKey) -> int:
